@@ -1,7 +1,7 @@
 /-
 C17 — "a loader that succeeds returns an object in which every attribute it declares as guaranteed is set",
-as THEOREMS for the six formats with a raw reader model (`Model/Rd/*`: XYZ, SDF, MOL2, PDB, Gaussian cube, GROMACS
-gro — the same functions the driver runs for the `rdr:<fmt>` correspondence streams, which compare, for every
+as THEOREMS for the nine formats with a raw reader model (`Model/Rd/*`: XYZ, SDF, MOL2, PDB, Gaussian cube, GROMACS
+gro, VASP POSCAR / CHGCAR / LOCPOT — the same functions the driver runs for the `rdr:<fmt>` correspondence streams, which compare, for every
 input, the keys of the result dictionary and the attributes that are not `None` on the constructed object).
 
 All statements are about the *generated* terms
@@ -17,7 +17,7 @@ not `None`.  `isSetB o a`: `getattr(IOData(**result), a) is not None` (the predi
 passed key, or a field defaulting to a fresh `dict`, or `atcorenums` derived from `atnums`.  Both are `false` for
 every name the model's result object does not represent (`Rd.accessor? a = none`), so a guaranteed name outside
 the represented ones makes the theorem unprovable instead of being skipped; `uncovered_none` pins that today no
-guaranteed name of the six modules is outside.  Represented: atcoords, atnums, atcorenums, atcharges, atffparams,
+guaranteed name of the nine modules is outside.  Represented: atcoords, atnums, atcorenums, atcharges, atffparams,
 bonds, cellvecs, cube, extra, title (presence of the key; for the dictionaries `atcharges`, `atffparams`, `extra`
 presence of the dictionary — their sub-keys are not part of any declaration).
 
@@ -56,7 +56,7 @@ def GuaranteedSet (m e : Str) (o : RObj) : Prop :=
 /-! ## registry-wide facts (generated terms only) -/
 
 /-- **source_keys_match_model**.  The table of keys the reader MODELS return (`Rd.modelKeys`, proved row by row
-below: `F_keys`) and the table extracted from the SOURCE of the six `load_one` functions (`Gen.ReaderKeys.resultKeys`:
+below: `F_keys`) and the table extracted from the SOURCE of the nine `load_one` functions (`Gen.ReaderKeys.resultKeys`:
 keys in every returned dictionary / keys stored on some paths only) list the same formats with the same `always` and
 the same `sometimes` sets.  (A reader that stops storing a key unconditionally moves it to `sometimes` and breaks
 this theorem.) -/
@@ -65,7 +65,7 @@ theorem source_keys_match_model :
     ∀ e ∈ resultKeys, ∃ m ∈ modelKeys, m.1 = e.1 ∧ sameSet e.2.1 m.2.1 = true ∧ sameSet e.2.2 m.2.2 = true := by
   decide +kernel
 
-/-- **guaranteed_within_source_always**.  For each of the six modules and for `load_one` and `load_many`: every
+/-- **guaranteed_within_source_always**.  For each of the nine modules and for `load_one` and `load_many`: every
 declared guaranteed name is one of the keys that, by the source skeleton, every dictionary returned by `load_one`
 carries. -/
 theorem guaranteed_within_source_always :
@@ -73,7 +73,7 @@ theorem guaranteed_within_source_always :
       ∀ a ∈ d.guaranteed, a ∈ e.2.1 := by
   decide +kernel
 
-/-- **load_many_frames_are_load_one**.  Every `load_many` of the six modules (cube has none) yields, by the source
+/-- **load_many_frames_are_load_one**.  Every `load_many` of the nine modules (cube and the VASP formats have none) yields, by the source
 skeleton, only unmodified dictionaries returned by `load_one(lit, …)`; the modules with a `load_many` are exactly
 those the registry lists. -/
 theorem load_many_frames_are_load_one :
@@ -87,9 +87,9 @@ theorem dict_defaults_match_source :
     ∀ p ∈ accessors, (dictDefaults.contains p.1 = true ↔ p.1 ∈ notNoneDefaults) := by
   decide +kernel
 
-/-- **uncovered_none**.  The list of guaranteed names (of the six modules' `load_one`/`load_many`) that the model's
+/-- **uncovered_none**.  The list of guaranteed names (of the nine modules' `load_one`/`load_many`) that the model's
 result object does not represent is empty — it cannot grow silently; and the list of guaranteed names it is computed
-from has at least one `load_one` name for each of the six modules. -/
+from has at least one `load_one` name for each of the nine modules. -/
 theorem uncovered_none :
     uncovered declared = [] ∧
     ∀ m ∈ modelKeys, ∃ t ∈ guaranteedNames declared, t.1 = m.1 ∧ t.2.1 = eLoadOne := by
@@ -252,6 +252,61 @@ theorem gro_api_guaranteed (ls : List Str) (h : apiOutcome (Rd.Gro.read ls) = .r
   obtain ⟨o, ho, hc⟩ := (reader_load_one_ret _).mp h
   exact ⟨o, ho, by simp [ctorE, hc], gro_guaranteed_load_one ls o ho⟩
 
+/-! ## VASP POSCAR, CHGCAR, LOCPOT (no `load_many`) -/
+
+/-- **poscar_keys**: for every line list, an object returned by the POSCAR reader has exactly the keys atcoords,
+atnums, cellvecs, title. -/
+theorem poscar_keys (T : Tables) (ls : List Str) (o : RObj) (h : (Rd.Vasp.readPoscar T ls).res = .ok o) :
+    KeysBetween o poscarB [] := by
+  obtain ⟨s, n, k, rfl⟩ := poscar_form T ls o h
+  exact keysBetween_of_eq (ks := [kAtcoords, kAtnums, kCellvecs, kTitle]) rfl (by decide) (by decide)
+
+/-- **poscar_guaranteed_load_one**: as `xyz_guaranteed_load_one`, for `poscar.load_one`. -/
+theorem poscar_guaranteed_load_one (T : Tables) (ls : List Str) (o : RObj)
+    (h : (Rd.Vasp.readPoscar T ls).res = .ok o) : GuaranteedSet fPoscar eLoadOne o :=
+  ⟨by decide +kernel, guaranteed_of_keys (poscar_keys T ls o h) (by decide +kernel)⟩
+
+/-- **poscar_api_guaranteed**: as `xyz_api_guaranteed`. -/
+theorem poscar_api_guaranteed (T : Tables) (ls : List Str) (h : apiOutcome (Rd.Vasp.readPoscar T ls) = .ret) :
+    ∃ o, (Rd.Vasp.readPoscar T ls).res = .ok o ∧ ctorE o = none ∧ GuaranteedSet fPoscar eLoadOne o := by
+  obtain ⟨o, ho, hc⟩ := (reader_load_one_ret _).mp h
+  exact ⟨o, ho, by simp [ctorE, hc], poscar_guaranteed_load_one T ls o ho⟩
+
+/-- **chgcar_keys**: for every line list, an object returned by the CHGCAR reader has exactly the keys atcoords,
+atnums, cellvecs, cube, title. -/
+theorem chgcar_keys (T : Tables) (ls : List Str) (o : RObj) (h : (Rd.Vasp.readChgcar T ls).res = .ok o) :
+    KeysBetween o vaspGridB [] := by
+  obtain ⟨s, c, n, k, rfl⟩ := vasp_grid_form T ls o h
+  exact keysBetween_of_eq (ks := [kAtcoords, kAtnums, kCellvecs, kCube, kTitle]) rfl (by decide) (by decide)
+
+/-- **chgcar_guaranteed_load_one**: as `xyz_guaranteed_load_one`, for `chgcar.load_one`. -/
+theorem chgcar_guaranteed_load_one (T : Tables) (ls : List Str) (o : RObj)
+    (h : (Rd.Vasp.readChgcar T ls).res = .ok o) : GuaranteedSet fChgcar eLoadOne o :=
+  ⟨by decide +kernel, guaranteed_of_keys (chgcar_keys T ls o h) (by decide +kernel)⟩
+
+/-- **chgcar_api_guaranteed**: as `xyz_api_guaranteed`. -/
+theorem chgcar_api_guaranteed (T : Tables) (ls : List Str) (h : apiOutcome (Rd.Vasp.readChgcar T ls) = .ret) :
+    ∃ o, (Rd.Vasp.readChgcar T ls).res = .ok o ∧ ctorE o = none ∧ GuaranteedSet fChgcar eLoadOne o := by
+  obtain ⟨o, ho, hc⟩ := (reader_load_one_ret _).mp h
+  exact ⟨o, ho, by simp [ctorE, hc], chgcar_guaranteed_load_one T ls o ho⟩
+
+/-- **locpot_keys**: as `chgcar_keys`. -/
+theorem locpot_keys (T : Tables) (ls : List Str) (o : RObj) (h : (Rd.Vasp.readLocpot T ls).res = .ok o) :
+    KeysBetween o vaspGridB [] := by
+  obtain ⟨s, c, n, k, rfl⟩ := vasp_grid_form T ls o h
+  exact keysBetween_of_eq (ks := [kAtcoords, kAtnums, kCellvecs, kCube, kTitle]) rfl (by decide) (by decide)
+
+/-- **locpot_guaranteed_load_one**: as `xyz_guaranteed_load_one`, for `locpot.load_one`. -/
+theorem locpot_guaranteed_load_one (T : Tables) (ls : List Str) (o : RObj)
+    (h : (Rd.Vasp.readLocpot T ls).res = .ok o) : GuaranteedSet fLocpot eLoadOne o :=
+  ⟨by decide +kernel, guaranteed_of_keys (locpot_keys T ls o h) (by decide +kernel)⟩
+
+/-- **locpot_api_guaranteed**: as `xyz_api_guaranteed`. -/
+theorem locpot_api_guaranteed (T : Tables) (ls : List Str) (h : apiOutcome (Rd.Vasp.readLocpot T ls) = .ret) :
+    ∃ o, (Rd.Vasp.readLocpot T ls).res = .ok o ∧ ctorE o = none ∧ GuaranteedSet fLocpot eLoadOne o := by
+  obtain ⟨o, ho, hc⟩ := (reader_load_one_ret _).mp h
+  exact ⟨o, ho, by simp [ctorE, hc], locpot_guaranteed_load_one T ls o ho⟩
+
 /-! ## non-vacuity: concrete files on which the readers return an object (evaluated by the kernel with the generated
 tables and layouts), with its keys, the constructor's acceptance and the guaranteed names exhibited; for MOL2 and PDB
 one file with and one without the `sometimes` key `bonds`; for SDF a record without bonds (`bonds` is still a key) -/
@@ -281,6 +336,15 @@ example : witnessOk declared (Rd.Cube.read cubeH) fCube eLoadOne
   decide +kernel
 example : witnessOk declared (Rd.Gro.read groSol) fGro eLoadOne [kAtcoords, kAtffparams, kCellvecs, kExtra, kTitle] = true ∧
     witnessOk declared (Rd.Gro.read groSol) fGro eLoadMany [kAtcoords, kAtffparams, kCellvecs, kExtra, kTitle] = true := by
+  decide +kernel
+example : witnessOk declared (Rd.Vasp.readPoscar tables poscarBN) fPoscar eLoadOne
+      [kAtcoords, kAtnums, kCellvecs, kTitle] = true := by
+  decide +kernel
+example : witnessOk declared (Rd.Vasp.readChgcar tables chgcarO) fChgcar eLoadOne
+      [kAtcoords, kAtnums, kCellvecs, kCube, kTitle] = true ∧
+    witnessOk declared (Rd.Vasp.readLocpot tables chgcarO) fLocpot eLoadOne
+      [kAtcoords, kAtnums, kCellvecs, kCube, kTitle] = true ∧
+    apiOutcome (Rd.Vasp.readChgcar tables chgcarO) = .ret := by
   decide +kernel
 /-- the API level is not vacuous either: `load_one` returns the object for the XYZ witness -/
 example : apiOutcome (Rd.Xyz.read tables xyzH2) = .ret := by decide +kernel
